@@ -80,4 +80,12 @@ PROPS = {
              "per configuration 6 names and OS-path candidates derived from them (trailing/double separators, '..', root look-alikes, other volume, relative); plus failing calls on the real os.FS under 0..2 Sub roots; distinct = distinct term",
         level_text="TODO", level_note="TODO", assumptions=[],
     ),
+    "C06": dict(
+        imports="Base.Path KV.Types KV.FS KV.Handle KV.Run KV.Corr Compose.Mount", check="C06_check", ctype="C06_case",
+        show="let '(pts, ops, _) := c in mrun (minit pts) ops", n=dict(quick=300, thorough=6000), chunk=60,
+        rule="random sets of 0..4 mount points from {a, ab, a/b, a/b/ab, b} (nested points, string-prefix look-alikes) in random insertion order over mem.FS constituents; "
+             "namespace histories through mount.FS compared step by step with the same history on one flat mem.FS (result, error, and the exact contents of every constituent); "
+             "Mount(p) for all 120 paths of depth<=4; AddMount guards and 2..6 concurrent AddMount of one point; distinct = distinct term",
+        level_text="TODO", level_note="TODO", assumptions=[],
+    ),
 }
